@@ -436,3 +436,11 @@ enum QueryPeerState {
     /// This is a final state, reached as a result of a call to `on_success`.
     Succeeded,
 }
+
+#[cfg(feature = "verif-hooks")]
+impl<TNodeId, TResult> PredicateQuery<TNodeId, TResult> {
+    /// Read-only view of the internal progress mode (verification hook).
+    pub(crate) fn verif_is_stalled(&self) -> bool {
+        matches!(self.progress, QueryProgress::Stalled)
+    }
+}
